@@ -42,6 +42,13 @@ func (pConn *PFCPConn) handleSessionEstablishmentRequest(msg message.Message) (m
 		return pfdres, errUnmarshal(err)
 	}
 
+	if sereq.NodeID == nil || sereq.CPFSEID == nil {
+		seres := message.NewSessionEstablishmentResponse(0, 0, 0, sereq.SequenceNumber, 0,
+			ie.NewCause(ie.CauseMandatoryIEMissing))
+
+		return seres, errUnmarshal(errMandatoryIEMissing)
+	}
+
 	nodeID, err := sereq.NodeID.NodeID()
 	if err != nil {
 		return errUnmarshalReply(err, sereq.NodeID)
@@ -543,7 +550,15 @@ func (pConn *PFCPConn) handleSessionReportResponse(msg message.Message) error {
 		return errUnmarshal(errMsgUnexpectedType)
 	}
 
-	cause := srres.Cause.Payload[0]
+	if srres.Cause == nil {
+		return errUnmarshal(errMandatoryIEMissing)
+	}
+
+	cause, err := srres.Cause.Cause()
+	if err != nil {
+		return errUnmarshal(err)
+	}
+
 	if cause == ie.CauseRequestAccepted {
 		return nil
 	}
